@@ -56,8 +56,8 @@ proof fn lemma_chain_lookup_at(c: Seq<Header>, i: int)
 // only present when the canister's store OVERRIDES the trait's default `get_initial_hash` (= hash of get_with_height(0)): whatever it
 // does, it must name the first header of the chain the validator walks (height 0)
 //@slice file=canister/src/validation.rs in="impl HeaderStore for ValidationContext<'_>" item="fn get_initial_hash" body=1 props=C11,C10 optional=1
-//@ rewrite R7 "self\.state" => "state"
-//@ rewrite R7 "self\.chain" => "chain"
+//@ rewrite R7? "self\.state" => "state"
+//@ rewrite R7? "self\.chain" => "chain"
 //@ head
 //@| fn ctx_get_initial_hash(state: &State, chain: &Vec<(&Header, BlockHash)>) -> (r: RawBlockHash)
 //@|     requires ctx_wf(state, chain@),
